@@ -1787,7 +1787,11 @@ class _OrderInterp:
 
     def run(self, env):
         self.out = []
-        self._block(self.fn.body, env)
+        try:
+            self._block(self.fn.body, env)
+        except (ValueError, TypeError, IndexError, AttributeError, ZeroDivisionError, RecursionError) as ex:
+            # an error of the interpreter's own Python operations on the abstract values: outside the modelled fragment
+            raise self.Unsupported(f"{type(ex).__name__}: {ex}"[:80])
         return self.out
 
     def _block(self, stmts, env):
@@ -2015,6 +2019,9 @@ class _OrderInterp:
                     if not e.args:
                         return tv
                 raise self.Unsupported(f"method {e.func.attr}")
+        if isinstance(e, ast.Call) and isinstance(e.func, ast.Name) and e.func.id in env and callable(env[e.func.id]) and not e.keywords:
+            # a local bound to a callable of a stub (`rebuild = self.manager.And if … else self.manager.Or`)
+            return env[e.func.id](*[self._expr(a, env) for a in e.args])
         if isinstance(e, ast.Call) and isinstance(e.func, ast.Name) and e.func.id in getattr(self, "helpers", {}):
             h = self.helpers[e.func.id]
             hp = [a.arg for a in h.args.args]
@@ -2039,10 +2046,14 @@ class _OrderInterp:
             if isinstance(e.func, ast.Attribute) and e.func.attr in ("keys", "items") and not e.args:
                 b = self._expr(e.func.value, env)
                 return list(b.keys()) if e.func.attr == "keys" else list(b.items())
-            if fn in ("max", "min") and e.args:
+            if fn in ("max", "min") and e.args and all(k.arg == "default" for k in e.keywords):
                 vals = [self._expr(a, env) for a in e.args]
                 if len(vals) == 1:
                     vals = list(vals[0])
+                if not vals and e.keywords:
+                    return self._expr(e.keywords[0].value, env)
+                if not vals:
+                    raise _Raised("ValueError: max()/min() of an empty sequence")
                 return max(vals) if fn == "max" else min(vals)
         raise self.Unsupported(norm(e)[:60])
 
@@ -2601,7 +2612,21 @@ def c07(idx: Index, rep: Report, tier: str) -> None:
     rule = "C07.6 per-iteration-flags-reset"
     n = sticky_flags(idx, rep, rule, [f for f in idx.all_funcs() if f.module.name.startswith("unified_planning.engines.compilers.")])
     rep.count("per_iteration_flags", n)
-    rep.require_min(rule, "per_iteration_flags", 2)
+    # how many such flags the compilers have is incidental (a `for … else` needs none): the detector is kept honest by
+    # a fixture that must match on every run, not by a minimum on the tree
+    class _Fx:
+        short = qualname = "fixture"
+
+        def __init__(self, src):
+            self.node = ast.parse(src).body[0]
+
+        def loc(self, n=None):
+            return "fixture:1"
+
+    probe = Report(rep.prop, rep.tier, 0)
+    got = sticky_flags(idx, probe, rule, [_Fx("def f(xs):\n    bad = False\n    for x in xs:\n        if x < 0:\n            bad = True\n        if bad:\n            continue\n        yield x\n"), _Fx("def g(xs):\n    for x in xs:\n        bad = False\n        if x < 0:\n            bad = True\n        if bad:\n            continue\n        yield x\n")])
+    if got != 2 or [o.ok for o in probe.obligations] != [False, True]:
+        raise AnalysisError(f"{rule}: the sticky-flag fixture no longer matches (positive must fire, negative must pass)")
     dnf_conjunctions_kept(idx, rep, "C07.7 T2 conjunction-dropped-only-if-false")
 
     # UndefinedInitialNumericRemover asks a fluent to be defined before an action *reads* it. Which effects read their
@@ -3010,7 +3035,7 @@ def c14(idx: Index, rep: Report, tier: str) -> None:
     handlers = [(x, False) for x in ast.walk(iw.node) if isinstance(x, ast.ExceptHandler)]
     dagc_ = idx.cls("model.walkers.dag.DagWalker")
     for c in walk_no_nested(iw.node):  # the try/except may sit in a private helper that iter_walk calls
-        if isinstance(c, ast.Call) and isinstance(c.func, ast.Attribute) and norm(c.func.value) == "self" and c.func.attr.startswith("_") and c.func.attr in dagc_.methods and c.func.attr != "_process_stack":
+        if isinstance(c, ast.Call) and isinstance(c.func, ast.Attribute) and norm(c.func.value) == "self" and c.func.attr.startswith("_") and c.func.attr in dagc_.methods:
             handlers += [(x, True) for x in ast.walk(dagc_.methods[c.func.attr].node) if isinstance(x, ast.ExceptHandler)]
     for h, in_helper in handlers:
         for st in h.body:
